@@ -210,6 +210,38 @@ var c19Text = hx.Define("c19.defaults-are-text", func(c *c19TextCase, s *hx.Sub)
 	return nil
 })
 
+// a tag at the very end of the source that is shorter than the object-left delimiter
+
+type c19ShortCase struct {
+	D    [4]string `json:"d"`
+	Pre  string    `json:"pre"`
+	Name string    `json:"name"`
+}
+
+var c19Short = hx.Define("c19.short-final-tag", func(c *c19ShortCase, s *hx.Sub) *hx.Violation {
+	eff := c19Effective(c.D)
+	if !c19Valid(eff) {
+		s.Exclude()
+		return nil
+	}
+	custom, deflt := c.Pre+eff.TL+c.Name+eff.TR, c.Pre+"{%"+c.Name+"%}"
+	oc, od := hx.RenderWith(c19Engine(c.D), custom, nil), hx.RenderWith(c19Default, deflt, nil)
+	if oc.Panic != nil {
+		return hx.V("panic@"+oc.Panic.Site, "Delims(%q) on %q: %v", c.D, custom, oc.Panic)
+	}
+	if od.Panic != nil {
+		return hx.V("panic@"+od.Panic.Site, "%q: %v", deflt, od.Panic)
+	}
+	if oc.Kind() != od.Kind() || oc.Out != od.Out || (oc.Err != nil && oc.Err.LineNumber() != od.Err.LineNumber()) {
+		return hx.V("c19:differs", "with Delims%q the template %q renders %v\n   the same template with the default delimiters %q renders %v", c.D, custom, oc, deflt, od)
+	}
+	s.NT()
+	if s.WantSample() {
+		s.Sample(map[string]any{"delims": c.D, "template": custom, "output": oc.String()})
+	}
+	return nil
+})
+
 var c19Small = []string{"<", ">", "[", "]", "\\", "^"}
 
 func TestC19(t *testing.T) {
@@ -235,6 +267,23 @@ func TestC19(t *testing.T) {
 			t.Fatalf("%s", v.Message)
 		}
 	})
+	sh := c19Short.On(col, "exhaustive over a list: object delimiters of length 1..4, tag delimiters of length 1 x a final tag with a name of 1..5 letters (undefined names, break, else, raw, if without a condition) written without blanks, preceded by nothing, text or a newline. Oracle: same output, or failure on the same line, as the default spelling on a default engine. Distinct by construction", true)
+	{
+		i := 0
+		for _, ol := range []string{"<<<<", "[[[", "^^", "\\"} {
+			for _, tt := range [][2]string{{"<", ">"}, {"[", "]"}, {"^", "\\"}} {
+				for _, pre := range []string{"", "ab ", "ab\n", "\n\n"} {
+					for _, name := range []string{"q", "xy", "if", "raw", "else", "break"} {
+						i++
+						if env.Mine(i) {
+							sh.Run(&c19ShortCase{D: [4]string{ol, strings.Repeat(">", len(ol)), tt[0], tt[1]}, Pre: pre, Name: name})
+							sh.Run(&c19ShortCase{D: [4]string{ol, "]]", tt[0], tt[1]}, Pre: pre, Name: name})
+						}
+					}
+				}
+			}
+		}
+	}
 	strs := append([]string{}, c19Small...)
 	for _, a := range c19Small {
 		for _, b := range c19Small {
